@@ -15,6 +15,14 @@ NA = {
 }
 
 CHECKS = {
+ "C02": dict(level="exploration", design="§5 C02",
+   text="Seeded search over (generated program, host tape) x 4-8 collection schedules (thresholds, collections injected at arbitrary allocations through the H2 seam, bursts, host-forced collect() between steps and at suspensions); every perturbed run must reproduce the outcome, console, host traffic and exports of the collection-off run, with an empty stale-dereference log (H1). Sampling, not enumeration.",
+   note="Trusted: harness (progGen, simulated host, comparison), hooks H1/H2 (add-only, cfg tsrun_verif). Programs are tsrun-vs-tsrun, so ECMAScript conformance is not assumed.",
+   technique="deterministic simulation: seeded GC-schedule injection vs GC-off reference run"),
+ "C07": dict(level="exploration", design="§5 C07",
+   text="Seeded search over generated programs with host holes at many syntactic positions x 3-5 host schedules (immediate / error / deferred-promise answers, settle order and batching from a choice tape, idle steps, eval vs step driver, GC schedule); oracle = the token-identical program with a synchronous stub. Sampling, not enumeration.",
+   note="Trusted: harness; the synchronous-stub run as reference (same interpreter, no suspension). Generated programs are sequential in their async structure, so no outcome is legitimately settle-order dependent.",
+   technique="deterministic simulation: simulated host with seeded answer schedules vs non-suspending reference"),
  "C13": dict(level="exploration", design="§5 C13",
    text="Seeded search over operation histories of the public Heap/Guard/Gc API (short dense and long strata, heap drop with survivors, stale-handle clone/drop) checked operation by operation against an executable reachability model; the same histories are the workload for the ASan/Miri memory oracle. Sampling, not enumeration.",
    note="Trusted: the harness model (reachability graph, collection detection through the H2 counter), rustc, sanitizer runtimes. Histories never borrow through handles the model knows to be stale.",
